@@ -1047,7 +1047,12 @@ func getPath(v Value, path []int) Value {
 	for _, p := range path {
 		switch x := v.(type) {
 		case StructV:
+			if p >= len(x.f) { // a value with fewer fields than its declared type: PICKITEM faults
+				panic(vmFault{"field index out of range"})
+			}
 			v = x.f[p]
+		case NullV:
+			panic(vmFault{"field of Null"})
 		default:
 			panic(fmt.Sprintf("getPath on %T", v))
 		}
@@ -1207,7 +1212,11 @@ func (e *Engine) execBlock(fn *ssa.Function, s *St) ([]succ, []Out) {
 				if p := x.(PtrV); p.id == -1 {
 					s.env[in] = IntV{s.env[p.ref.(ssa.Value)].(BytesV).b[p.path[0]]}
 				} else {
-					s.env[in] = e.load(s.State, p)
+					var lv Value
+					if f := catchFault(func() { lv = e.load(s.State, p) }); f != "" {
+						return nil, []Out{{s.State, true, constBytes(f)}}
+					}
+					s.env[in] = lv
 				}
 			case token.NOT:
 				s.env[in] = BoolV{Not(x.(BoolV).t)}
@@ -1314,6 +1323,9 @@ func (e *Engine) execBlock(fn *ssa.Function, s *St) ([]succ, []Out) {
 		case *ssa.Field:
 			switch sv := e.get(s, in.X).(type) {
 			case StructV:
+				if in.Field >= len(sv.f) {
+					return nil, []Out{{s.State, true, constBytes("field index out of range")}}
+				}
 				s.env[in] = sv.f[in.Field]
 			case NullV:
 				return nil, []Out{{s.State, true, constBytes("field of Null")}}
